@@ -33,7 +33,7 @@ func runC04(c *Ctx) {
 	c.checkDomain(c.fn("align", "*align", "ReplaceChar"), domainSpec{Rule: "window-domain", Domain: []string{"0 <= site", "site <= L - 1"}})
 	c.checkDomain(c.fn("align", "*align", "CharStatsSite"), domainSpec{Rule: "window-domain", Domain: []string{"0 <= site", "site <= L - 1"}})
 	c.checkDomain(c.fn("align", "*align", "SiteConservation"), domainSpec{Rule: "window-domain", Domain: []string{"0 <= position", "position <= L - 1"}})
-	L.Floor("window-domain", 20, "6 functions, 2-3 domain constraints each, both directions")
+	L.Floor("window-domain", 10, "6 functions, 2-3 domain constraints each, both directions (floor = half of the instances on the pinned tree: a clean-up may merge instances, a rule that sees nothing must still fail)")
 
 	elem := []string{"0 <= ELEM", "ELEM <= L - 1"}
 	for _, name := range []string{"SelectSites", "InversePositions", "RefSites"} {
@@ -50,7 +50,7 @@ func runC04(c *Ctx) {
 			}
 		}
 	}
-	L.Floor("element-domain", 6, "3 functions x 2 bounds")
+	L.Floor("element-domain", 3, "3 functions x 2 bounds (floor = half of the instances on the pinned tree: a clean-up may merge instances, a rule that sees nothing must still fail)")
 
 	for _, name := range []string{"SubAlign", "TrimSequences", "Transpose", "Split"} {
 		r := c.fn("align", "*align", name)
@@ -64,13 +64,13 @@ func runC04(c *Ctx) {
 			L.Unknown("row-index-safe", r.label, "row index sites", c.P.Pos(r.F.Pos()), "no index into a row buffer found")
 		}
 	}
-	L.Floor("row-index-safe", 6, "SelectSites 1, SubAlign 1, TrimSequences 2, Transpose 1, Split 1+")
+	L.Floor("row-index-safe", 3, "SelectSites 1, SubAlign 1, TrimSequences 2, Transpose 1, Split 1+ (floor = half of the instances on the pinned tree: a clean-up may merge instances, a rule that sees nothing must still fail)")
 
 	c.checkPartitionSet()
 	c.checkConcatPads()
 	L.Rule("range-args-fresh", "the start, end and modulo handed to PartitionSet.AddRange by the partition parser are computed from the tokens of the current interval (or constants) on every path: no interval inherits a bound or a step from the previous one")
 	c.checkCallArgsFresh("range-args-fresh", c.fn("io/partition", "*Parser", "parse"), "AddRange", []int{3, 4, 5}, []string{"start", "end", "modulo"})
-	L.Floor("range-args-fresh", 3, "three numeric arguments")
+	L.Floor("range-args-fresh", 1, "three numeric arguments (floor = half of the instances on the pinned tree: a clean-up may merge instances, a rule that sees nothing must still fail)")
 	c.checkComplementShape("complement-shape")
 }
 
@@ -302,7 +302,7 @@ func (c *Ctx) checkPartitionSet() {
 			return "", false
 		}, nil)
 	}
-	L.Floor("table-index-safe", 3, "AddRange read+write, Partition read")
+	L.Floor("table-index-safe", 1, "AddRange read+write, Partition read (floor = half of the instances on the pinned tree: a clean-up may merge instances, a rule that sees nothing must still fail)")
 }
 
 // checkConcatPads: the two strings.Repeat(string(GAP), X.Length()) calls.
